@@ -31,7 +31,7 @@ extern decltype(drv_vss_decode) A_drv_vss_decode, Z_drv_vss_decode;
 extern decltype(drv_vss_encode) A_drv_vss_encode, Z_drv_vss_encode;
 extern decltype(drv_vss_pad) A_drv_vss_pad, Z_drv_vss_pad;
 }
-extern "C" { extern decltype(drv_vss_strarr_pack) A_drv_vss_strarr_pack, Z_drv_vss_strarr_pack; }
+extern "C" { extern decltype(drv_vss_strarr_pack) A_drv_vss_strarr_pack, Z_drv_vss_strarr_pack; extern decltype(drv_vss_strarr_count) A_drv_vss_strarr_count, Z_drv_vss_strarr_count; extern decltype(drv_generic_field) A_drv_generic_field, Z_drv_generic_field; }
 static int g_inc = 0;
 #define DRV(name) (g_inc == 1 ? A_##name : g_inc == 2 ? Z_##name : name)
 
@@ -194,6 +194,12 @@ static std::string gen(const std::string &prop, uint64_t base, uint64_t idx, boo
             line(strf("op b=%d vssenc am=%u dt=%u plen=%u sid=0x%x v=0x%llx pseed=0x%llx", b.id, am, dt, plen, (unsigned)r.next(), (unsigned long long)(dt == 8 ? r.below(2) : r.next()),
                       (unsigned long long)r.next()) + strf(" inc=%d", inc_variant));
             if (r.coin()) { line(strf("op b=%d vssdec inc=%d", b.id, inc_variant)); i++; }
+            continue;
+        }
+        if (r.chance(0.015)) {
+            // the generic field codec with a table of the application's own: a header of up to 64 bytes (16 quadlets) with fields inside one
+            // quadlet and 48/64-bit fields that start a quadlet, written and read in seeded order
+            line(strf("op b=%d custom tseed=0x%llx nops=%u inc=%d", b.id, (unsigned long long)r.next(), (unsigned)r.range(4, 24), inc_variant));
             continue;
         }
         if (std::string(f->name) == "Vss" && r.chance(0.03)) {
@@ -623,6 +629,58 @@ static void exec(const std::string &text, bool verbose) {
             b.wr_seq[fl->name] = op_index; b.wr_task_seq[fl->name] = task_switches; b.wr_via[fl->name] = "ded";
             continue;
         }
+        if (what == "custom") {
+            Rng tr(kv.u64("tseed", 1));
+            // build the table: walk through 16 quadlets, cut each into fields or let a 48/64-bit field start there
+            std::vector<uint8_t> desc;
+            std::vector<std::pair<unsigned, unsigned>> fld;  // (first bit, width)
+            for (unsigned q = 0; q < 16 && fld.size() < 30;) {
+                if (q + 2 <= 16 && tr.chance(0.15)) { unsigned w = tr.coin() ? 64 : 48; desc.insert(desc.end(), {(uint8_t)q, 0, (uint8_t)w}); fld.push_back({q * 32, w}); if (w == 48 && fld.size() < 30) { desc.insert(desc.end(), {(uint8_t)(q + 1), 16, 16}); fld.push_back({q * 32 + 48, 16}); } q += 2; continue; }
+                for (unsigned off = 0; off < 32 && fld.size() < 30;) {
+                    unsigned w = (unsigned)tr.range(1, 32 - off);
+                    if (tr.chance(0.3)) w = 32 - off;
+                    desc.insert(desc.end(), {(uint8_t)q, (uint8_t)off, (uint8_t)w});
+                    fld.push_back({q * 32 + off, w});
+                    off += w;
+                }
+                q++;
+                if (tr.chance(0.2)) q += (unsigned)tr.below(3);  // (quadlets the table does not describe)
+            }
+            int n = (int)fld.size();
+            std::vector<uint8_t> hdr(64 + 32), mdl;
+            for (auto &x : hdr) x = (uint8_t)tr.next();
+            mdl = hdr;
+            uint8_t *hp = hdr.data() + 16;  // (16 bytes before and behind the header must stay as they are)
+            const uint8_t *dp = desc.data();
+            unsigned nops = (unsigned)kv.u64("nops", 8);
+            ev("custom", strf("fields=%d ops=%u", n, nops));
+            for (unsigned k = 0; k < nops && n > 0; k++) {
+                int fi = (int)tr.below((uint64_t)n);
+                uint64_t m = mask_w(fld[fi].second);
+                if (tr.chance(0.6)) {
+                    uint64_t v = tr.chance(0.3) ? ~0ULL : tr.next() >> tr.below(64);
+                    DIRTY();
+                    DRV(drv_generic_field)(dp, n, hp, fi, 1, v);
+                    wire::set_bits(mdl.data() + 16, fld[fi].first, fld[fi].second, v & m);
+                    per_entry["entry.custom_table.set"]++;
+                } else {
+                    DIRTY();
+                    uint64_t got = DRV(drv_generic_field)(dp, n, hp, fi, 0, 0);
+                    uint64_t want = wire::get_bits(mdl.data() + 16, fld[fi].first, fld[fi].second);
+                    per_entry["entry.custom_table.get"]++;
+                    if (got != want)
+                        violation("read:custom-table", strf("field %d of an application-defined table (quadlet %u, offset %u, %u bits) reads 0x%llx, the bytes say 0x%llx", fi,
+                                                            fld[fi].first / 32, fld[fi].first % 32, fld[fi].second, (unsigned long long)got, (unsigned long long)want));
+                }
+                if (hdr != mdl) {
+                    size_t d = 0; while (d < hdr.size() && hdr[d] == mdl[d]) d++;
+                    violation("bytes:custom-table", strf("after an access to field %d of an application-defined table (quadlet %u, offset %u, %u bits) byte %ld of the header holds 0x%02x, the reference 0x%02x",
+                                                         fi, fld[fi].first / 32, fld[fi].first % 32, fld[fi].second, (long)d - 16, hdr[d], mdl[d]));
+                }
+            }
+            check_bytes("custom-table", "after operations on a header of the application's own (the message in hand is not an argument)");
+            continue;
+        }
         if (what == "strarr") {
             int n = (int)kv.u64("n");
             std::vector<unsigned> L;
@@ -655,6 +713,22 @@ static void exec(const std::string &text, bool verbose) {
             if (memcmp(packed.data(), ref.data(), ref.size()) != 0 || packed[ref.size()] != 0x7e || packed[ref.size() + 1] != 0x7e)
                 violation("bytes:Vss.<strarr>", strf("the packed block of %d strings differs from 16-bit length + bytes per string, or bytes behind it were written", n));
             check_bytes("Vss.<strarr>", "after packing a string array into a buffer of its own (the message is not an argument)");
+            // counting the strings is a read, also when the length in the descriptor cuts the last string short (a truncated message):
+            // the block lies in a read-only page of its own
+            if (n >= 1 && ref.size() >= 3) {
+                size_t pl = 4096;
+                uint8_t *ro = (uint8_t *)mmap(nullptr, pl, PROT_READ | PROT_WRITE, MAP_PRIVATE | MAP_ANONYMOUS, -1, 0);
+                if (ro != MAP_FAILED) {
+                    memset(ro, 0, pl);
+                    memcpy(ro, ref.data(), std::min(ref.size(), pl - 16));
+                    mprotect(ro, pl, PROT_READ);
+                    uint16_t cut = (uint16_t)(std::min(ref.size(), pl - 16) - 1 - sr.below(2));
+                    DIRTY();
+                    (void)DRV(drv_vss_strarr_count)(ro, cut);
+                    per_entry["entry.vss_string_array_count_of_truncated_block"]++;
+                    munmap(ro, pl);
+                }
+            }
             continue;
         }
         if (what == "vssenc") {
